@@ -6,6 +6,8 @@ M-MAP     every function with an ``index`` option returns, next to the matrix, m
           placed the entries, a pass-through of a callee's maps, or an enumeration of the unfiltered view.
 M-EMPTY   where a function branches on the degenerate (0, 0) incidence shape, its result is assigned on every path through
           that branch (using the callee fact, read from incidence_matrix, that both maps are empty there).
+M-DTYPE   where a builder branches on ``sparse``, both branches construct the matrix with the same element type (an int8 sparse
+          incidence next to an int dense one makes every product of the sparse form wrap at 128).
 M-NORM    the per-order normaliser of multiorder_laplacian (mean order-d degree) does not depend on rescale_per_node.
 Numerical equality with the textbook definitions is NOT decided.
 """
@@ -31,7 +33,7 @@ ROW_KIND = {
 def run(ctx):
     repo = ctx.repo
     res = Result(PROP)
-    res.rules = ["K1", "K2", "K5", "M-MAP", "M-EMPTY", "M-NORM"]
+    res.rules = ["K1", "K2", "K5", "M-MAP", "M-EMPTY", "M-DTYPE", "M-NORM"]
     res.explanation = (
         "Narrow claim: kind inference over the matrix builders plus provenance of the returned index maps, definite "
         "assignment in the degenerate-shape branches and a dependency check on the multi-order normaliser. The numerical "
@@ -50,7 +52,47 @@ def run(ctx):
     if not ctx.only:
         res.floor("functions with an index option", n, 11)
         check_norm(repo, res)
+        check_dtype(repo, res, fns)
     return res
+
+
+def check_dtype(repo, res, fns):
+    """Sibling agreement of the sparse and the dense construction."""
+    n = 0
+
+    def dtypes(nodes):
+        out = set()
+        for st in nodes:
+            for c in ast.walk(st):
+                if isinstance(c, ast.Call):
+                    for k in c.keywords:
+                        if k.arg == "dtype":
+                            out.add(unparse(k.value))
+                    if isinstance(c.func, ast.Attribute) and c.func.attr == "astype" and c.args:
+                        out.add(unparse(c.args[0]))
+        return out
+
+    for fn in fns:
+        if "sparse" not in fn.all_params:
+            continue
+        for node in ast.walk(fn.node):
+            if isinstance(node, (ast.If, ast.IfExp)):
+                t = node.test
+                neg = isinstance(t, ast.UnaryOp) and isinstance(t.op, ast.Not)
+                t = t.operand if neg else t
+                if not (isinstance(t, ast.Name) and t.id == "sparse"):
+                    continue
+                a = dtypes(node.body if isinstance(node, ast.If) else [node.body])
+                b = dtypes(node.orelse if isinstance(node, ast.If) else [node.orelse])
+                if not a or not b:
+                    continue
+                n += 1
+                ok = a == b
+                res.inst("M-DTYPE", f"{fn.qualname}:{node.lineno} sparse branch dtype {sorted(a)} = dense branch dtype {sorted(b)}", ok)
+                if not ok:
+                    sp, de = (b, a) if neg else (a, b)
+                    res.add(mk_finding(PROP, "M-DTYPE", fn, node, f"{fn.qualname}: the sparse branch builds the matrix with dtype {sorted(sp)} and the dense branch with {sorted(de)}; products and sums of the two forms then differ (a narrower integer type wraps), so sparse and dense outputs of the functions built on it are not equal", role="dtype"))
+    res.floor("sparse/dense construction pairs with explicit dtypes", n, 3)
 
 
 def local_defs(fn, name):
@@ -73,8 +115,23 @@ def map_provenance(fn, expr, depth=0):
                 for d in local_defs(fn, fwd):
                     val = d.value
                     if isinstance(val, ast.Call) and getattr(val.func, "id", None) == "dict" and val.args and isinstance(val.args[0], ast.Call) and getattr(val.args[0].func, "id", None) == "zip" and len(val.args[0].args) == 2 and isinstance(val.args[0].args[1], ast.Call) and getattr(val.args[0].args[1].func, "id", None) == "range":
+                        if not is_view_order(fn, val.args[0].args[0]):
+                            return None, f"`{fwd}` numbers `{unparse(val.args[0].args[0], 40)}`, which is not a node/edge view in view order; callers that use the matrix without the index maps rely on row i being the i-th ID of the view"
                         return "inverse-of-placement", fwd
                     if isinstance(val, ast.DictComp):
+                        it = val.generators[0].iter
+                        src = None
+                        if isinstance(it, ast.Call) and getattr(it.func, "id", None) == "enumerate" and it.args:
+                            src = it.args[0]
+                        elif isinstance(it, ast.Call) and getattr(it.func, "id", None) == "zip" and it.args:
+                            src = it.args[0]
+                        if src is None or not is_view_order(fn, src):
+                            return None, f"`{fwd}` is numbered over `{unparse(it, 40)}`, which is not a node/edge view in view order"
+                        return "inverse-of-placement", fwd
+                    if isinstance(val, ast.Dict) and not val.keys or (isinstance(val, ast.Call) and getattr(val.func, "id", None) == "dict" and not val.args):
+                        bad = fills_out_of_view_order(fn, fwd)
+                        if bad is not None:
+                            return None, f"`{fwd}` numbers the IDs in the order they are first met while iterating `{bad}`, not in view order; callers that use the matrix without the index maps (row i = i-th ID of the view) attach the rows to the wrong labels"
                         return "inverse-of-placement", fwd
                     # forward map taken from a callee's inverse map (adjacency_tensor: nodedict = inverse of rowdict)
                     p, w = map_provenance(fn, val, depth + 1)
@@ -113,6 +170,62 @@ def map_provenance(fn, expr, depth=0):
     return None, f"`{unparse(expr, 40)}` is not a recognised index-map construction"
 
 
+def is_view_order(fn, v, depth=0):
+    """v iterates node/edge IDs in view order: H.nodes / H.edges, a filter of one (filters keep view order), list() of one,
+    or a local name bound to one."""
+    if depth > 4:
+        return False
+    if isinstance(v, ast.Attribute) and v.attr in ("nodes", "edges") and isinstance(v.value, ast.Name):
+        return True
+    if isinstance(v, ast.Name) and v.id in fn.all_params:
+        return v.id == fn.params[0]  # iterating a network yields its nodes in view order
+    if isinstance(v, ast.Call) and getattr(v.func, "id", None) in ("list", "tuple") and v.args:
+        return is_view_order(fn, v.args[0], depth + 1)
+    if isinstance(v, ast.Call) and isinstance(v.func, ast.Attribute) and v.func.attr in ("filterby", "filterby_attr"):
+        return is_view_order(fn, v.func.value, depth + 1)
+    if isinstance(v, ast.IfExp):
+        return is_view_order(fn, v.body, depth + 1) and is_view_order(fn, v.orelse, depth + 1)
+    if isinstance(v, ast.Name):
+        defs = local_defs(fn, v.id)
+        return bool(defs) and all(isinstance(d.targets[0], ast.Name) and is_view_order(fn, d.value, depth + 1) for d in defs)
+    return False
+
+
+def fills_out_of_view_order(fn, name):
+    """A forward map created empty: every statement that adds a key (`m[k] = ...`, `m.setdefault(k, ...)`) must sit in a
+    loop over a view in view order, and the first such loop must cover the whole view. Returns the offending iterable."""
+    par = {}
+    for p in ast.walk(fn.node):
+        for ch in ast.iter_child_nodes(p):
+            par[ch] = p
+    sites = []
+    for n in ast.walk(fn.node):
+        if isinstance(n, ast.Subscript) and isinstance(n.ctx, ast.Store) and isinstance(n.value, ast.Name) and n.value.id == name:
+            sites.append(n)
+        if isinstance(n, ast.Call) and isinstance(n.func, ast.Attribute) and n.func.attr in ("setdefault", "update") and isinstance(n.func.value, ast.Name) and n.func.value.id == name:
+            sites.append(n)
+    sites.sort(key=lambda n: (n.lineno, n.col_offset))
+    for site in sites[:1]:  # the first filling decides the numbering of everything it meets
+        p = site
+        loop = None
+        while p in par:
+            p = par[p]
+            if isinstance(p, (ast.For, ast.comprehension)):
+                loop = p
+            if isinstance(p, (ast.ListComp, ast.SetComp, ast.GeneratorExp, ast.DictComp)) and loop is None:
+                loop = p.generators[0]
+            if isinstance(p, ast.For):
+                loop = p  # outermost enclosing loop wins
+        if loop is None:
+            return "no loop"
+        it = loop.iter
+        if isinstance(it, ast.Call) and getattr(it.func, "id", None) == "enumerate" and it.args:
+            it = it.args[0]
+        if not is_view_order(fn, it):
+            return unparse(it, 40)
+    return None
+
+
 def is_plain_view(v):
     if isinstance(v, ast.Attribute) and v.attr in ("nodes", "edges") and isinstance(v.value, ast.Name):
         return True
@@ -121,7 +234,7 @@ def is_plain_view(v):
     return False
 
 
-def check_map(repo, eng, res, fn):
+def check_map(repo, eng, res, fn, prop=PROP):
     rets = [r for r in own_statements(fn.node) if isinstance(r, ast.Return) and r.value is not None]
     expected = ROW_KIND.get(fn.name)
     for r in rets:
@@ -137,7 +250,7 @@ def check_map(repo, eng, res, fn):
                 ok = prov is not None
                 res.inst("M-MAP", f"{fn.qualname}:{r.lineno} returned map #{j + 1} `{unparse(m, 30)}` -> {prov or 'unrecognised'} ({why})", ok)
                 if not ok:
-                    res.add(mk_finding(PROP, "M-MAP", fn, r, f"{fn.qualname}: the index map `{unparse(m, 40)}` returned with the matrix is not derived from the map that placed the entries ({why}); rows/columns would be reported under the wrong labels", role=f"map{j + 1}"))
+                    res.add(mk_finding(prop, "M-MAP", fn, r, f"{fn.qualname}: the index map `{unparse(m, 40)}` returned with the matrix is not derived from the map that placed the entries ({why}); rows/columns would be reported under the wrong labels", role=f"map{j + 1}"))
     # kinds of the returned maps under index=True
     if expected is not None:
         r = eng.analyze(fn)
@@ -150,7 +263,7 @@ def check_map(repo, eng, res, fn):
                     bad = (val is not None and val[0] == "id" and val[1] and val[1] != expected[j]) or (key is not None and key[0] == "id")
                     res.inst("M-MAP", f"{fn.qualname}: returned map #{j + 1} has kind {fmt(mk)}", not bad)
                     if bad:
-                        res.add(mk_finding(PROP, "M-MAP", fn, fn.node, f"{fn.qualname}: returned index map #{j + 1} has kind {fmt(mk)}; expected positions -> {expected[j]} labels", role=f"kind{j + 1}"))
+                        res.add(mk_finding(prop, "M-MAP", fn, fn.node, f"{fn.qualname}: returned index map #{j + 1} has kind {fmt(mk)}; expected positions -> {expected[j]} labels", role=f"kind{j + 1}"))
 
 
 def check_empty(repo, res, fn):
